@@ -4,6 +4,26 @@ import json, os, subprocess
 HERE = os.path.dirname(os.path.dirname(os.path.abspath(__file__)))
 
 CLAIMED = {
+ "C04": dict(
+   technique="stateful property testing: generated edit histories (proptest vec of ops + interpreter of ops) against a BTreeMap reference model; differential against a fresh interpreter",
+   text="Generated histories of add / replace / delete / failed-edit / LIST / RUN operations over colliding and extreme line numbers (0, leading zeros, 2^63, 2^64-1, 20+-digit pseudo numbers). With serial PRINT payloads the oracle is a BTreeMap and is independent of the tokenizer; with arbitrary statements the used interpreter must LIST and RUN exactly like a fresh one holding the surviving lines. Sampling of the history space; collisions are forced by a small number pool.",
+   note="Trusts the 20-line map model in c04.rs; RUN comparisons run under a 2000-turn budget with both sides seeded alike.",
+   design="4/C04"),
+ "C12": dict(
+   technique="metamorphic property testing: lines built from construction-tagged segments, exhaustive and random whitespace/case perturbations, token sequences compared through the tokenizer hook and through LIST",
+   text="Base lines are assembled from free / protected / DATA-item segments tagged by the generator (never by the tokenizer). Every base is perturbed: all blanks removed, blank/tab/three blanks in every gap, every single gap, all 2^k gap subsets for k <= 8, all-lower/all-upper, every single letter flip, random flips; each variant must tokenize to the identical token sequence (or identical error kind) and LIST identically. Exhaustive per base line inside those bounds; base lines are sampled.",
+   note="Trusts the segment construction (protected map) and the exclusion of lines whose free text accidentally spells REM/DATA; the hook tokenize_with_ranges wraps the real Tokenizer.",
+   design="4/C12"),
+ "C13": dict(
+   technique="exhaustive enumeration of atom strings + random/raw text (proptest) against a validity predicate with a re-tokenization round trip per token",
+   text="All strings of up to 4 (quick) / 5 (thorough) atoms from a 40-atom alphabet covering every token class, blanks, tabs, multi-byte and illegal characters are enumerated; random atom strings to length 40, every line of the repo's programs and test sources, and raw Unicode text are added. For each line the reported ranges must be in bounds, on char boundaries, ordered, disjoint, separated only by blanks, blank-free at both ends (REM/DATA to their text end), and re-tokenizing each range's text must give exactly that token; for failing lines the error start must be in the line and the prefix must tokenize to the tokens reported before the error.",
+   note="Trusts the 100-line predicate in c13.rs and the hook tokenize_with_ranges (iterates the real Tokenizer).",
+   design="4/C13"),
+ "C14": dict(
+   technique="round-trip property testing (LIST -> reload -> LIST fixed point, differential RUN and READ sequence), exhaustive over token-class pairs/triples, random over numerals / DATA / text / programs",
+   text="For stored programs built from every ordered pair (thorough: triple) of token-class representatives, numerals in many spellings and contexts, DATA statements with all item kinds and odd spacing, REM/string text with arbitrary Unicode, random atom lines, grammar-generated programs and the repo's sample programs: LIST must be a fixed point under reloading into a fresh interpreter, every listed line must be accepted, RUN of both must give identical output records and outcome, and RESTORE+READ must yield the identical DATA item sequence.",
+   note="Behavioural equality is decided under a 3000-turn budget with equal seeds and a fixed reply to INPUT.",
+   design="4/C14"),
  "C03": dict(
    technique="model-based property testing: grammar-generated structured programs (proptest, shrinking) run on the real interpreter and on an independent reference interpreter; outputs and (error kind, line) compared",
    text="Programs are generated as structured values (nested FOR incl. NEXT of outer variables, loops left by GOTO, guarded backward jumps, GOSUB from THEN/ELSE, recursion to the 32-frame cap, READ/DATA/RESTORE, DIM/implicit arrays, DEF with dynamic scoping, all documented ELSE forms, injected runtime failures), laid out on numbered lines, rendered with random spacing/case and RUN; printed output and failure (kind, line) must equal those of a reference interpreter written from the documented semantics. Sampling of an unbounded program space; class histograms in the evidence show what was reached.",
